@@ -9,6 +9,9 @@ import (
 	"bytes"
 	"context"
 	"crypto/tls"
+	"crypto/x509"
+	"sort"
+	"syscall"
 	"net/http/httptest"
 	"os"
 	"encoding/binary"
@@ -188,6 +191,256 @@ func c16RtServers() {
 	})
 }
 
+// ---- the network of the policy op: REAL clients with allow / deny lists, real listeners on loopback addresses ----
+//
+// All of 127.0.0.0/8 is local. Hosts (fake DNS):
+//	h1.example.com 127.16.1.1   h2.example.com 127.16.1.2   h3.example.com 127.16.2.1   h6.example.com ::1
+//	hh.example.com 127.16.1.1 and 127.16.2.1 (in this order)
+// Listeners: F = federation server on 0.0.0.0:<ephemeral> (symbolic port 5), G = the same on [::1]:<ephemeral>
+// (symbolic port 6), W = an HTTPS server on port 443 of the three IPv4 addresses, serving /.well-known/matrix/server
+// by script (per Host: 404, a delegation, a redirect to another host's document) and {} elsewhere. Nothing listens on
+// 8448. Every listener records each connection it ACCEPTS as <local address>/<F|G|W>: that is where a connection
+// was made, whatever happened on it afterwards. The servers present the httptest certificate (*.example.com,
+// 127.0.0.1, ::1); it is the only root the well-known fetch trusts (http.DefaultTransport is a real transport with
+// that root), the federation requests skip verification.
+// The listeners on port 443 are opened per op under a file lock, so that checks running side by side do not collide.
+
+var c16PolHosts = map[string][]string{
+	"h1.example.com": {"127.16.1.1"}, "h2.example.com": {"127.16.1.2"}, "h3.example.com": {"127.16.2.1"},
+	"h6.example.com": {"::1"}, "hh.example.com": {"127.16.1.1", "127.16.2.1"},
+}
+
+var c16PolWAddrs = []string{"127.16.1.1", "127.16.1.2", "127.16.2.1"}
+
+var (
+	c16PolOnce     sync.Once
+	c16PolMu       sync.Mutex
+	c16PolArrivals []string
+	c16PolWK       map[string]string // lower-case host -> n | s<m.server> | r<host>
+	c16PolPortF    string
+	c16PolPortG    string
+	c16PolTLS      *tls.Config
+	c16PolRoots    *x509.CertPool
+)
+
+type c16PolListener struct {
+	net.Listener
+	sym string
+}
+
+func (l c16PolListener) Accept() (net.Conn, error) {
+	c, err := l.Listener.Accept()
+	if err == nil {
+		if host, _, e := net.SplitHostPort(c.LocalAddr().String()); e == nil {
+			c16PolMu.Lock()
+			c16PolArrivals = append(c16PolArrivals, host+"/"+l.sym)
+			c16PolMu.Unlock()
+		}
+	}
+	return c, err
+}
+
+// c16PolMap replaces the symbolic ports 5 and 6 at the end of a server name by the real ones.
+func c16PolMap(s string) string {
+	switch {
+	case strings.HasSuffix(s, ":5"):
+		return s[:len(s)-1] + c16PolPortF
+	case strings.HasSuffix(s, ":6"):
+		return s[:len(s)-1] + c16PolPortG
+	}
+	return s
+}
+
+func c16PolHandler(w http.ResponseWriter, r *http.Request) {
+	if r.URL.Path == "/.well-known/matrix/server" {
+		host := strings.ToLower(r.Host)
+		if h, _, err := net.SplitHostPort(host); err == nil {
+			host = h
+		}
+		c16PolMu.Lock()
+		k := c16PolWK[host]
+		c16PolMu.Unlock()
+		switch {
+		case strings.HasPrefix(k, "s"):
+			b, _ := json.Marshal(map[string]string{"m.server": c16PolMap(k[1:])})
+			w.Header().Set("Content-Type", "application/json")
+			_, _ = w.Write(b)
+		case strings.HasPrefix(k, "r"):
+			http.Redirect(w, r, "https://"+k[1:]+"/.well-known/matrix/server", http.StatusFound)
+		default:
+			http.NotFound(w, r)
+		}
+		return
+	}
+	w.Header().Set("Content-Type", "application/json")
+	_, _ = w.Write([]byte("{}"))
+}
+
+func c16PolServers() {
+	c16PolOnce.Do(func() {
+		f := httptest.NewUnstartedServer(http.HandlerFunc(c16PolHandler))
+		f.Listener.Close()
+		l4, err := net.Listen("tcp4", "0.0.0.0:0")
+		if err != nil {
+			panic("harness: cannot listen: " + err.Error())
+		}
+		f.Listener = c16PolListener{l4, "F"}
+		f.Config.ErrorLog = nil
+		f.StartTLS()
+		_, c16PolPortF, _ = net.SplitHostPort(l4.Addr().String())
+		c16PolTLS = &tls.Config{Certificates: f.TLS.Certificates}
+		c16PolRoots = x509.NewCertPool()
+		c16PolRoots.AddCert(f.Certificate())
+		l6, err := net.Listen("tcp6", "[::1]:0")
+		if err != nil {
+			panic("harness: cannot listen on ::1: " + err.Error())
+		}
+		_, c16PolPortG, _ = net.SplitHostPort(l6.Addr().String())
+		g := &http.Server{Handler: http.HandlerFunc(c16PolHandler), TLSConfig: c16PolTLS.Clone()}
+		g.ErrorLog = nil
+		go func() { _ = g.ServeTLS(c16PolListener{l6, "G"}, "", "") }()
+	})
+}
+
+// c16PolPermitted: in no denied range and in at least one allowed range (entries that are not CIDRs name no range).
+func c16PolPermitted(ip net.IP, allow, deny []string) bool {
+	in := func(l []string) bool {
+		for _, c := range l {
+			if _, n, err := net.ParseCIDR(c); err == nil && n.Contains(ip) {
+				return true
+			}
+		}
+		return false
+	}
+	return ip != nil && !in(deny) && in(allow)
+}
+
+func c16PolList(arg string) []string {
+	if arg == "-" {
+		return nil
+	}
+	var out []string
+	for _, e := range strings.Split(arg, ",") {
+		out = append(out, string(unhx(e)))
+	}
+	return out
+}
+
+// policy <opts> <allow> <deny> <cache lists> <hx server name> <well-known script>
+//
+//	opts         letters: w = WithWellKnownSRVLookups(true), c = WithDNSCache; - = neither
+//	allow, deny  - (nil) | hx(cidr),hx(cidr)…   the client's WithAllowDenyNetworks lists
+//	cache lists  same | open | nil   the lists NewDNSCache is given: the client's / allow everything / nil, nil
+//	server name  with the symbolic ports 5 (F) and 6 (G)
+//	script       . | host=kind,…   kind = n (404) | s<hx m.server> | r<hx host to redirect to>
+//
+// -> arr:<sorted set of <address>/<F|G|W> where a connection was accepted>|ok or |err (the request's outcome)
+func c16ExecPolicy(args []string) string {
+	c16PolServers()
+	lock, err := os.OpenFile("/tmp/verif-c16-policy.lock", os.O_CREATE|os.O_RDWR, 0o666)
+	if err != nil {
+		return "err:harness-lock"
+	}
+	defer lock.Close()
+	if err := syscall.Flock(int(lock.Fd()), syscall.LOCK_EX); err != nil {
+		return "err:harness-lock"
+	}
+	defer func() { _ = syscall.Flock(int(lock.Fd()), syscall.LOCK_UN) }()
+	var ws []*http.Server
+	defer func() {
+		for _, w := range ws {
+			_ = w.Close()
+		}
+	}()
+	for _, a := range c16PolWAddrs {
+		var l net.Listener
+		for try := 0; try < 50; try++ {
+			if l, err = net.Listen("tcp4", a+":443"); err == nil {
+				break
+			}
+			time.Sleep(100 * time.Millisecond)
+		}
+		if err != nil {
+			return "err:harness-cannot-listen-on-443"
+		}
+		w := &http.Server{Handler: http.HandlerFunc(c16PolHandler), TLSConfig: c16PolTLS.Clone()}
+		w.ErrorLog = nil
+		ws = append(ws, w)
+		go func(w *http.Server, l net.Listener) { _ = w.ServeTLS(c16PolListener{l, "W"}, "", "") }(w, l)
+	}
+	wk := map[string]string{}
+	if args[5] != "." {
+		for _, e := range strings.Split(args[5], ",") {
+			kv := strings.SplitN(e, "=", 2)
+			k := kv[1]
+			if len(k) > 1 {
+				k = k[:1] + string(unhx(k[1:]))
+			}
+			wk[kv[0]] = k
+		}
+	}
+	c16PolMu.Lock()
+	c16PolArrivals = nil
+	c16PolWK = wk
+	c16PolMu.Unlock()
+	hosts := map[string][]net.IP{}
+	for n, as := range c16PolHosts {
+		for _, a := range as {
+			hosts[n] = append(hosts[n], net.ParseIP(a))
+		}
+	}
+	allow, deny := c16PolList(args[1]), c16PolList(args[2])
+	name := c16PolMap(string(unhx(args[4])))
+	oldT, oldR := http.DefaultTransport, net.DefaultResolver
+	wkTransport := &http.Transport{TLSClientConfig: &tls.Config{RootCAs: c16PolRoots}, DisableKeepAlives: true}
+	http.DefaultTransport = wkTransport
+	net.DefaultResolver = &net.Resolver{PreferGo: true, Dial: func(ctx context.Context, network, address string) (net.Conn, error) {
+		return &c16MemConn{f: &c16FakeDNS{hosts: hosts, script: map[string]c16SrvAnswer{}}}, nil
+	}}
+	defer func() { http.DefaultTransport, net.DefaultResolver = oldT, oldR }()
+	opts := []fclient.ClientOption{fclient.WithSkipVerify(true), fclient.WithTimeout(5 * time.Second), fclient.WithAllowDenyNetworks(allow, deny)}
+	if strings.Contains(args[0], "w") {
+		opts = append(opts, fclient.WithWellKnownSRVLookups(true))
+	}
+	if strings.Contains(args[0], "c") {
+		ca, cd := allow, deny
+		switch args[3] {
+		case "open":
+			ca, cd = []string{"0.0.0.0/0", "::/0"}, nil
+		case "nil":
+			ca, cd = nil, nil
+		}
+		opts = append(opts, fclient.WithDNSCache(fclient.NewDNSCache(16, time.Minute, ca, cd)))
+	}
+	client := fclient.NewClient(opts...)
+	res := "|ok"
+	req, err := http.NewRequest("GET", "matrix://"+name+"/_matrix/federation/v1/version", nil)
+	if err != nil {
+		return "err:request"
+	}
+	resp, err := client.DoHTTPRequest(context.Background(), req)
+	if err != nil {
+		res = "|err"
+	} else {
+		_, _ = io.Copy(io.Discard, resp.Body)
+		_ = resp.Body.Close()
+	}
+	wkTransport.CloseIdleConnections()
+	time.Sleep(15 * time.Millisecond) // a connection the client gave up on may still be on its way through Accept
+	c16PolMu.Lock()
+	seen := map[string]bool{}
+	var arr []string
+	for _, a := range c16PolArrivals {
+		if !seen[a] {
+			seen[a] = true
+			arr = append(arr, a)
+		}
+	}
+	c16PolMu.Unlock()
+	sort.Strings(arr)
+	return "arr:" + strings.Join(arr, ",") + res
+}
+
 // ---- scripted well-known transport ----
 
 type c16WkReply struct {
@@ -235,6 +488,7 @@ type c16SrvAnswer struct {
 }
 
 type c16FakeDNS struct {
+	hosts   map[string][]net.IP // names with fixed addresses (policy op); asked first
 	answerA bool // every name has an address: its own loopback address (RoundTrip op)
 	mu     sync.Mutex
 	script map[string]c16SrvAnswer // lower-case "_svc._tcp.name." -> answer
@@ -259,6 +513,17 @@ func (f *c16FakeDNS) answer(q *dns.Msg) *dns.Msg {
 	// queries are rightly answered NXDOMAIN
 	ans, found = f.script[qn]
 	f.mu.Unlock()
+	if ips, ok := f.hosts[strings.TrimSuffix(qn, ".")]; ok && (q.Question[0].Qtype == dns.TypeA || q.Question[0].Qtype == dns.TypeAAAA) {
+		for _, ip := range ips {
+			hdr := dns.RR_Header{Name: q.Question[0].Name, Rrtype: q.Question[0].Qtype, Class: dns.ClassINET, Ttl: 60}
+			if v4 := ip.To4(); v4 != nil && q.Question[0].Qtype == dns.TypeA {
+				m.Answer = append(m.Answer, &dns.A{Hdr: hdr, A: v4})
+			} else if v4 == nil && q.Question[0].Qtype == dns.TypeAAAA {
+				m.Answer = append(m.Answer, &dns.AAAA{Hdr: hdr, AAAA: ip})
+			}
+		}
+		return m // no records of the family asked for: NOERROR, no data
+	}
 	if q.Question[0].Qtype == dns.TypeA && f.answerA {
 		m.Answer = append(m.Answer, &dns.A{Hdr: dns.RR_Header{Name: q.Question[0].Name, Rrtype: dns.TypeA, Class: dns.ClassINET, Ttl: 60}, A: c16RtAddrOf(q.Question[0].Name)})
 		return m
@@ -445,6 +710,38 @@ func execResolve(op string, args []string) string {
 			asked[i] = hx([]byte(a))
 		}
 		return out + "|wk=" + strings.Join(asked, ",")
+	case "policy":
+		return c16ExecPolicy(args)
+	case "policy_forbidden":
+		// the property's clause, evaluated on what the implementation did: the connections that arrived on addresses the
+		// configured lists do not permit (membership by the standard library's net.ParseCIDR / IPNet.Contains)
+		res := c16ExecPolicy(args)
+		if !strings.HasPrefix(res, "arr:") {
+			return res
+		}
+		allow, deny := c16PolList(args[1]), c16PolList(args[2])
+		var bad []string
+		for _, a := range strings.Split(strings.SplitN(res[4:], "|", 2)[0], ",") {
+			if a == "" {
+				continue
+			}
+			ip := net.ParseIP(strings.SplitN(a, "/", 2)[0])
+			ok := (len(allow) == 0 && len(deny) == 0) || c16PolPermitted(ip, allow, deny)
+			if strings.Contains(args[0], "c") {
+				ca, cd := allow, deny
+				switch args[3] {
+				case "open":
+					ca, cd = []string{"0.0.0.0/0", "::/0"}, nil
+				case "nil":
+					ca, cd = nil, nil
+				}
+				ok = ok && c16PolPermitted(ip, ca, cd)
+			}
+			if !ok {
+				bad = append(bad, a)
+			}
+		}
+		return "forbidden:" + strings.Join(bad, ",")
 	case "roundtrip_props":
 		return "ok" // the driver evaluates the property's clauses on the implementation's answer carried in the op
 	case "roundtrip":
@@ -766,11 +1063,126 @@ func c16GenRoundTrip(o *Out, r *Rng, n int) {
 	}
 }
 
+// ---- policy: real clients with allow / deny lists (see the network above c16ExecPolicy) ----
+
+var c16PolAll = []string{"0.0.0.0/0", "::/0"}
+
+// allow / deny configurations over the addresses of the policy network
+var c16PolLists = [][2][]string{
+	{nil, nil},                                      // no lists: no control function at all
+	{c16PolAll, nil},                                // everything permitted
+	{c16PolAll, {"127.16.1.0/24"}},                  // h1, h2 denied; h3 and ::1 permitted
+	{{"127.16.2.0/24", "::1/128"}, nil},             // only h3 and ::1 allowed
+	{c16PolAll, {"127.0.0.0/8", "::1/128"}},         // every address of the network denied
+	{c16PolAll, {"garbage", "127.16.1.1/32"}},       // an unparsable entry before the one that matters
+	{{"127.16.1.2/32"}, nil},                        // only h2 allowed
+	{c16PolAll, {"::1/128"}},                        // only the IPv6 loopback denied
+	{c16PolAll, {"::ffff:127.16.1.1/128", "127.16.2.1/32"}}, // h1 (as an IPv4-mapped range) and h3 denied
+	{{"0.0.0.0/0"}, {"127.16.1.1/31"}},              // IPv6 not allowed at all; 127.16.1.0 and .1 denied
+}
+
+var c16PolNames = []string{
+	"h1.example.com:5", "h2.example.com:5", "h3.example.com:5", "hh.example.com:5", "H1.Example.COM:5", "127.16.1.1:5", "127.16.2.1:5",
+	"[::1]:6", "h6.example.com:6", "h1.example.com", "h3.example.com", "hh.example.com", "127.16.1.1", "h1.example.com:443", "h1.example.com:8448",
+}
+
+func c16PolListArg(l []string) string {
+	if len(l) == 0 {
+		return "-"
+	}
+	out := make([]string, len(l))
+	for i, e := range l {
+		out[i] = hx([]byte(e))
+	}
+	return strings.Join(out, ",")
+}
+
+// c16PolScripts: what the hosts serve under /.well-known/matrix/server when `name` (a DNS name without port) is asked
+func c16PolScripts(name string) []string {
+	n := strings.ToLower(name)
+	other := "h3.example.com"
+	if n == other {
+		other = "h2.example.com"
+	}
+	return []string{
+		".",
+		n + "=s" + hx([]byte("h2.example.com:5")),
+		n + "=s" + hx([]byte("127.16.2.1:5")),
+		n + "=s" + hx([]byte("h3.example.com")),
+		n + "=s" + hx([]byte("[::1]:6")),
+		n + "=r" + hx([]byte(other)) + "," + other + "=s" + hx([]byte("h2.example.com:5")),
+		n + "=r" + hx([]byte(other)),
+	}
+}
+
+func c16DoPolicy(o *Out, opts string, lists [2][]string, cacheLists, name, script string) string {
+	args := []string{opts, c16PolListArg(lists[0]), c16PolListArg(lists[1]), cacheLists, hx([]byte(name)), script}
+	res := o.Do("policy", args...)
+	o.Count("policy.opts." + opts)
+	if strings.HasPrefix(res, "arr:") {
+		if f := o.Do("policy_forbidden", args...); f != "forbidden:" {
+			o.Count("policy.forbidden-connection")
+		}
+		if strings.HasPrefix(res, "arr:|") {
+			o.Count("policy.no-connection")
+		} else {
+			o.Count("policy.connections." + strconv.Itoa(1+strings.Count(strings.SplitN(res, "|", 2)[0], ",")))
+		}
+		o.Count("policy.request" + res[strings.LastIndex(res, "|"):])
+	} else {
+		o.Count("policy." + res)
+	}
+	return res
+}
+
+// c16GenPolicy: client options x list configurations x server names x well-known documents. thorough: the whole
+// product; quick: the configurations that matter for every option (deny-everything, deny h1, allow h3 only) on every name,
+// plus a random sample of the rest.
+func c16GenPolicy(o *Out, r *Rng, tier string) {
+	type combo struct {
+		opts, cache string
+	}
+	combos := []combo{{"-", "same"}, {"w", "same"}, {"c", "same"}, {"c", "open"}, {"wc", "same"}, {"wc", "open"}, {"c", "nil"}}
+	run := func(c combo, li int, name string) {
+		scripts := []string{"."}
+		if strings.Contains(c.opts, "w") && !strings.Contains(name, ":") && !strings.HasPrefix(name, "127.") {
+			scripts = c16PolScripts(name)
+		}
+		for _, sc := range scripts {
+			res := c16DoPolicy(o, c.opts, c16PolLists[li], c.cache, name, sc)
+			if li == 4 && name == "h1.example.com" && sc == "." {
+				o.Sample("policy opts=" + c.opts + " cache=" + c.cache + " deny=127.0.0.0/8,::1/128 " + name + " -> " + res)
+			}
+		}
+	}
+	if tier == "thorough" {
+		for _, c := range combos {
+			for li := range c16PolLists {
+				for _, name := range c16PolNames {
+					run(c, li, name)
+				}
+			}
+		}
+		return
+	}
+	for _, c := range combos[:6] {
+		for _, li := range []int{4, 2, 3} {
+			for _, name := range []string{"h1.example.com:5", "127.16.2.1:5", "h6.example.com:6", "h1.example.com", "hh.example.com:5"} {
+				run(c, li, name)
+			}
+		}
+	}
+	for i := 0; i < 120; i++ {
+		run(Pick(r, combos), r.Intn(len(c16PolLists)), Pick(r, c16PolNames))
+	}
+}
+
 func genResolve(o *Out, tier string, r *Rng) {
 	n := 4000
 	if tier == "thorough" {
 		n = 60000
 	}
+	c16GenPolicy(o, r, tier)
 	// every pool name once, alone (no well-known, no SRV) and through ParseAndValidateServerName
 	var all []string
 	all = append(all, c16OddNames...)
